@@ -16,6 +16,12 @@ CHECKS = {
     text="Generated-input search (60k quick / 1M thorough cases per run) with an exact two-directional token oracle: the annotated fn must be the literal prefix of the expansion, module items the literal prefix of the emitted module body, impl-block items the literal body of the emitted inherent impl. Exploration, not proof: it establishes the property on every generated program and shrinks any counterexample to a replay file.",
     note="Trusts proc_macro2's fallback lexer/printer to agree with rustc's (cross-checked by the E2 recorder leg) and that the mechanical port of lib.rs (engine/port/build.rs) follows the working tree; inputs that the macro rejects are outside the quantifier.",
     design="§2 C02"),
+ "C10": dict(
+    technique="exhaustive enumeration of the option/feature/target lattice against a truth table written from the statement: in-process attribute inspection (3 option orders per point) plus four facade builds (feature x cfg(test)) with run-time probes",
+    engine="E1+E2",
+    text="All 1152 points of {entrait, entrait_export} x feature x unimock{absent,bare,=true,=false} x mock_api x mockall{absent,bare,=true,=false} x export{absent,bare,=true,=false; fn/mod} x {fn, mod, trait} are checked twice: E1 reads the mock attributes on the emitted trait (present? wrapped in cfg_attr(test, ..)?), E2 compiles every point through the facade in four builds and observes the consequence at run time (named unimock API / `Unimock: Trait`, the mockall struct) = emitted && (exported || cfg(test)); the recorder confirms which macro variant the facade dispatched to. Complete in the quick tier (about 40 s).",
+    note="With the feature off an active unimock derivation cannot compile (`::entrait::__unimock` is absent): that compile error is the expected observation there. unimock without a named API is observable only on traits with the feature on.",
+    design="§2 C10"),
  "C11": dict(
     technique="property-based testing of compiled clients against the real unimock crate: clause matching in declared vs permuted order, partial-mock differential (trait call on Unimock vs original fn on &Unimock), panic expectations",
     engine="E2",
